@@ -40,6 +40,27 @@ def histories(traces, scen):
     return out
 
 
+def judge_histories(hs, wd):
+    """TLC (BarLin.tla) searches a linearization of every history; returns the ids of those that have none."""
+    failed, states, trans = [], 0, 0
+    B = 400
+    for bi in range(0, len(hs), B):
+        tf = os.path.join(wd, "lin-%d.ndjson" % bi)
+        of = os.path.join(wd, "lin-%d.out" % bi)
+        with open(tf, "w") as f:
+            for h in hs[bi:bi + B]:
+                f.write(json.dumps(h) + "\n")
+        rc, out = core.run_tlc(core.SPECS, "MCBarLin.tla", "BarLin.cfg", env={"LIN_TRACE": tf, "LIN_OUT": of}, workers=1,
+                               timeout=1800, java_opts="-Xss64m")
+        if rc != 0 or not os.path.exists(of):
+            raise core.Infra("BarLin.tla failed:\n" + out[-3000:])
+        st, tr = core.tlc_stats(out)
+        states += st
+        trans += tr
+        failed.extend(json.load(open(of))["failed"])
+    return failed, states, trans
+
+
 def run(prop, tier, seed):
     t0 = time.time()
     wd = core.workdir(prop)
@@ -52,22 +73,7 @@ def run(prop, tier, seed):
         scen = {s["id"]: s for s in scs}
         traces = core.run_scenarios(binary, wd, scs, chunk=25)
         hs = histories(traces, scen)
-        failed, states, trans = [], 0, 0
-        B = 400
-        for bi in range(0, len(hs), B):
-            tf = os.path.join(wd, "lin-%d.ndjson" % bi)
-            of = os.path.join(wd, "lin-%d.out" % bi)
-            with open(tf, "w") as f:
-                for h in hs[bi:bi + B]:
-                    f.write(json.dumps(h) + "\n")
-            rc, out = core.run_tlc(core.SPECS, "MCBarLin.tla", "BarLin.cfg", env={"LIN_TRACE": tf, "LIN_OUT": of}, workers=1,
-                                   timeout=1800, java_opts="-Xss64m")
-            if rc != 0 or not os.path.exists(of):
-                raise core.Infra("BarLin.tla failed:\n" + out[-3000:])
-            st, tr = core.tlc_stats(out)
-            states += st
-            trans += tr
-            failed.extend(json.load(open(of))["failed"])
+        failed, states, trans = judge_histories(hs, wd)
         os.makedirs(os.path.join(core.ROOT, "replays"), exist_ok=True)
         byid = {h["id"]: h for h in hs}
         for tid in failed[:10]:
